@@ -346,6 +346,25 @@ func (c *absChain) newBlock(parent uint64, forceValid bool) types.Block {
 	return b
 }
 
+// appliedState is the state after applying block k and its ancestors, as a
+// caller that validated the chain itself would have it (the manager's stored
+// state of a block that was never applied is derived from the header only).
+func (c *absChain) appliedState(k uint64) consensus.State {
+	var chain []uint64
+	for n := k; n != 0; n = c.parent[n] {
+		chain = append([]uint64{n}, chain...)
+	}
+	s, _ := c.m.State(absID(0))
+	for _, n := range chain {
+		for _, b := range c.blocks {
+			if b.Nonce == n {
+				s, _ = stubApplyBlock(s, b, consensus.V1BlockSupplement{}, b.Timestamp)
+			}
+		}
+	}
+	return s
+}
+
 // totalWork returns the (symbolic) accumulated work of block k.
 func (c *absChain) totalWork(k uint64) uint64 {
 	var w uint64
